@@ -2,6 +2,7 @@ package main
 
 import (
 	_ "embed"
+	"fmt"
 	"go/ast"
 	"go/constant"
 	"go/token"
@@ -19,7 +20,7 @@ func init() {
 	register(&Prop{
 		ID:         "C16",
 		Title:      "DynamoDB usage restrictions are detected",
-		Decided:    "(R1) the reserved-word table equals the reference list of 573 words in both directions (a missing word under-rejects, an extra word rejects a legal request); (R2) a bare name is looked up in the environment only through one funnel in which the reserved-word test on the upper-cased literal precedes the lookup whenever the name is in a top-level position, and every call passes toplevel=true except the map-member position; (R3) whether a supplied placeholder is 'used' is decided on whole placeholders (match followed by a boundary test, or tokens), not by substring containment; (R4) the two placeholder-key patterns are ^#[A-Za-z0-9_]+$ and ^:[A-Za-z0-9_]+$, every supplied key is matched and a mismatch is an error; (R5) a #name/:value that is not bound yields an error rather than an undefined value; (R6) the key condition's shape is validated against the key schema before iteration; (R7) batch writes: the limit constant is 25, compared with > against the total over all tables, and a request that is neither or both put and delete is rejected; (R8) the restrictions are detected while an operand is evaluated: every evaluator of a node with several operand fields evaluates all of them before it returns a non-error result (no short-circuit that lets a reserved word or an undefined function in the skipped operand go unnoticed); (R9) every request is validated on its own: the validators consult and update no package-level mutable state (= C18.R6) – a remembered verdict would let a later, different request through.",
+		Decided:    "(R1) the reserved-word table equals the reference list of 573 words in both directions (a missing word under-rejects, an extra word rejects a legal request); (R2) a bare name is looked up in the environment only through one funnel in which the reserved-word test on the upper-cased literal precedes the lookup whenever the name is in a top-level position, and every call passes toplevel=true except the map-member position; (R3) whether a supplied placeholder is 'used' is decided on whole placeholders (match followed by a boundary test, or tokens), not by substring containment; (R4) the two placeholder-key patterns are ^#[A-Za-z0-9_]+$ and ^:[A-Za-z0-9_]+$, every supplied key is matched and a mismatch is an error; (R5) a #name/:value that is not bound yields an error rather than an undefined value; (R6) the key condition's shape is validated against the key schema before iteration; (R7) batch writes: the limit constant is 25, compared with > against the total over all tables, and a request that is neither or both put and delete is rejected; (R8) the restrictions are detected while an operand is evaluated: every evaluator of a node with several operand fields evaluates all of them before it returns a non-error result (no short-circuit that lets a reserved word or an undefined function in the skipped operand go unnoticed); (R9) every request is validated on its own: the validators consult and update no package-level mutable state (= C18.R6) – a remembered verdict would let a later, different request through; (R10) wherever the evaluator tests for an error object, the error edge returns an error – it is never swallowed or replaced.",
 		NotDecided: "completeness of the rejection for every syntactic position of every reserved word beyond the identifier-evaluation funnel of R2; the reference list itself is a transcription that cannot be re-fetched offline (trusted base).",
 		Assumes:    []string{"checker/ref/reserved_words.txt (573 words) is the AWS 'Reserved words in DynamoDB' list, including its documented spellings FLATTERN, INNTER, LOGED"},
 		Rules: []RuleDef{
@@ -32,6 +33,7 @@ func init() {
 			{ID: "R7", Desc: "batch write limits: 25 over all tables, exactly one of put/delete (T-TABLE)", Run: c16R7},
 			{ID: "R8", Desc: "no short-circuit: every operand of a node is evaluated (and thereby checked) before a non-error result (T-DOM)", Run: c16R8},
 			{ID: "R9", Desc: "validation is stateless: no package-level mutable state is consulted or updated (= C18.R6)", Run: aliasRule("R9", c18R6, nil)},
+			{ID: "R10", Desc: "error objects propagate: from the \"is an error\" edge of every error test in the evaluator no return of a non-error value is reachable (error discipline)", Run: c16R10},
 		},
 	})
 }
@@ -799,4 +801,118 @@ func operandName(a ssa.Value, node ssa.Value) string {
 	}
 	walk(a, 0)
 	return name
+}
+
+// c16R10: a restriction that is violated inside an operand shows as an ERROR OBJECT when the operand is evaluated. Wherever
+// the evaluator tests a value with the error predicate, the "is an error" edge hands an error back: no path from that edge
+// reaches a return of something that is not an error (the error is not swallowed, replaced by "missing", or overridden by a
+// later result). Functions whose result is not an object (lists of operands) are judged at their callers.
+func c16R10(e *Engine) {
+	isErr := e.fn("lang", "isError")
+	if !e.anchor("R10", "lang.isError", isErr == nil) {
+		return
+	}
+	g := e.newGuard()
+	n := 0
+	for _, fn := range sortedFns(e, fnSet(e.funcs("lang"))) {
+		if fn.Signature.Results().Len() != 1 || !isObjectIface(fn.Signature.Results().At(0).Type()) {
+			continue
+		}
+		instrs(fn, func(in ssa.Instruction) {
+			c, ok := in.(*ssa.Call)
+			if !ok || c.Call.StaticCallee() != isErr {
+				return
+			}
+			x := c.Call.Args[0]
+			// returns reachable with "x is an error" holding
+			bad := ""
+			for _, r := range returnsOf(fn) {
+				holds := false
+				for _, cd := range condsAt(r.Block()) {
+					cd = normCond(cd)
+					if cd.V == ssa.Value(c) && cd.Val {
+						holds = true
+					}
+				}
+				if !holds {
+					continue
+				}
+				rv := retVals(r)[0]
+				if strip(rv) == strip(x) || sameObj(rv, x) || sameElemLoad(rv, x) {
+					continue
+				}
+				if t := g.dynTag(rv, r.Block(), 0); t == "ERR" {
+					continue
+				}
+				if ph, isPhi := strip(rv).(*ssa.Phi); isPhi {
+					all := true
+					for _, s := range phiSources(ph) {
+						if strip(s) != strip(x) && g.dynTag(s, r.Block(), 0) != "ERR" {
+							all = false
+						}
+					}
+					if all {
+						continue
+					}
+				}
+				bad = e.ipos(r)
+			}
+			// … and the error edge must not fall through to the code after the test: every path from the true edge ends
+			// in one of the returns above
+			for _, r := range refsOf(c) {
+				ifi, isIf := r.(*ssa.If)
+				if !isIf {
+					continue
+				}
+				reach := reachableFrom(ifi.Block().Succs[0])
+				reach[ifi.Block().Succs[0]] = true
+				for _, rr := range returnsOf(fn) {
+					if !reach[rr.Block()] {
+						continue
+					}
+					held := false
+					for _, cd := range condsAt(rr.Block()) {
+						cd = normCond(cd)
+						if cd.V == ssa.Value(c) && cd.Val {
+							held = true
+						}
+					}
+					if !held {
+						// reachable from the error edge, but not governed by it: control rejoined the normal path
+						rv := retVals(rr)[0]
+						if strip(rv) != strip(x) && !sameElemLoad(rv, x) && g.dynTag(rv, rr.Block(), 0) != "ERR" {
+							bad = e.ipos(rr) + " (the error edge rejoins the normal path)"
+						}
+					}
+				}
+			}
+			n++
+			construct := fmt.Sprintf("%s:error-propagates[%s]", e.fname(fn), describeIndexed(x))
+			if bad != "" {
+				e.fail("R10", construct, e.ipos(c), "a value found to be an error object can be dropped: from the error edge a return of a non-error value is reachable at %s – a restriction violated inside the operand (reserved word, undefined function, …) goes unreported for that request", bad)
+			} else {
+				e.pass("R10", construct, e.ipos(c), "the error edge returns the error")
+			}
+		})
+	}
+	if n < 10 {
+		e.fail("R10", "count:R10", "-", "only %d error tests found in the evaluator", n)
+	}
+}
+
+// sameElemLoad: two loads of the same element (same base slice, same constant index) – args[0] read twice.
+func sameElemLoad(a, b ssa.Value) bool {
+	ua, ok1 := strip(a).(*ssa.UnOp)
+	ub, ok2 := strip(b).(*ssa.UnOp)
+	if !ok1 || !ok2 {
+		return false
+	}
+	ia, ok1 := ua.X.(*ssa.IndexAddr)
+	ib, ok2 := ub.X.(*ssa.IndexAddr)
+	if !ok1 || !ok2 || strip(ia.X) != strip(ib.X) {
+		return false
+	}
+	na, k1 := constInt(ia.Index)
+	nb, k2 := constInt(ib.Index)
+	return k1 && k2 && na == nb
 }
